@@ -274,6 +274,8 @@ func (sc c09Scenario) features(req int) string {
 		f = append(f, "the edit was saved and the file closed")
 	case "discard-opened":
 		f = append(f, "the file was opened with unsaved text and closed again")
+	case "included-gains-include":
+		f = append(f, "the include lines of an included file arrived with an unsaved edit")
 	}
 	if sc.DeclTwice {
 		f = append(f, "declared twice in the declaring file")
@@ -356,6 +358,22 @@ func c09Run(c *core.Ctx, dir string, sc c09Scenario, only *c09Case) {
 			// the workspace starts from a root journal without its include lines
 			_ = os.WriteFile(mainPath, []byte(stripped), 0o644)
 		}
+		// "included-gains-include": an included file that includes further files
+		// is saved without its include lines; they arrive with an unsaved edit
+		gains := -1
+		if sc.History == "included-gains-include" && sc.EditFile < 0 && !sc.OpenAll {
+			for f := 1; f < sc.N && gains < 0; f++ {
+				for k := 1; k < sc.N; k++ {
+					if sc.Parent[k] == f {
+						gains = f
+					}
+				}
+			}
+			if gains < 0 {
+				continue
+			}
+			_ = os.WriteFile(filepath.Join(dir, c09Files[gains]), []byte(strings.ReplaceAll(disk[gains].Text, "include ", "; nclude ")), 0o644)
+		}
 		s := wire.New()
 		root := ""
 		if sc.Root {
@@ -411,6 +429,18 @@ func c09Run(c *core.Ctx, dir string, sc c09Scenario, only *c09Case) {
 			savedDisk = disk[ef]
 			disk[ef], open[ef] = editor[ef], false
 			kept = true
+		}
+		if gains >= 0 {
+			// the requester is analysed while the file has no include lines yet
+			if gains != req {
+				s.DidOpen(uriOf(req), current(req).Text)
+				kept = true
+			}
+			s.DidOpen(uriOf(gains), strings.ReplaceAll(disk[gains].Text, "include ", "; nclude "))
+			s.DidChangeFull(uriOf(gains), disk[gains].Text, 2)
+			if gains == req {
+				kept = true
+			}
 		}
 		for f := 0; f < sc.N; f++ {
 			if open[f] && !(kept && f == req) && !(mainOpened && f == 0) {
@@ -715,6 +745,10 @@ func checkC09(c *core.Ctx) {
 												}
 												if root && ef != 0 {
 													h.History = "includes-by-edit"
+													c09Run(c, dir, h, nil)
+												}
+												if ef < 0 && !openAll && n >= 3 {
+													h.History = "included-gains-include"
 													c09Run(c, dir, h, nil)
 												}
 											}
